@@ -191,6 +191,12 @@ class ClientGenerator:
                 tmp_out_dir_for_diff.mkdir(parents=True, exist_ok=True)
                 tmp_core_dir_for_diff.mkdir(parents=True, exist_ok=True)  # Ensure core temp dir always exists
 
+                # A shared core keeps a registry with the error codes of *all* its clients. Seed the temp core
+                # with a copy (the real tree is only read) so that the comparison sees the same registry.
+                existing_registry = core_dir / ".exception_registry.json"
+                if existing_registry.exists():
+                    shutil.copyfile(str(existing_registry), str(tmp_core_dir_for_diff / ".exception_registry.json"))
+
                 # --- Generate files into the temporary structure ---
                 temp_generated_files = []  # Track files generated in temp dir
 
